@@ -194,8 +194,8 @@ def r2_one_index(a, tier):
     rep = RuleReport(
         'C12.R2',
         'one line index: both input implementations build their offset cache with PosLine.build_line_cache(lines, len(text)) '
-        'from the lines produced by their own split_block_lines, and lineinfo clamps the offset to len(cache) - 2 (the entry '
-        'before the sentinel) in both',
+        'from the lines produced by their own split_block_lines; at the end of every text over {a, LF} up to length 2 and in the empty '
+        'text, lineinfo / lineat / poscol of all three implementations (interpreted) answer without an exception',
         floor=4,
     )
     for c, post in (('tatsu.input.textlines.TextLines', '_postprocess'), ('tatsu.input.buffer.Buffer', '_postprocess')):
@@ -206,15 +206,62 @@ def r2_one_index(a, tier):
         if not ok:
             rep.fail(fn.qualname, 'cache-builder', f'{c.split(".")[-1]} does not build its line cache with '
                      f'PosLine.build_line_cache(self.lines, len(<text>))', fn.loc)
-    for q in ('tatsu.input.textlines.TextLinesCursor.lineinfo', 'tatsu.input.buffer.BufferCursor.lineinfo', 'tatsu.input.buffer.Buffer.lineinfo'):
-        fn = a.p.func(q)
-        clamp = [norm(n) for n in walk_no_defs(fn.node) if isinstance(n, ast.Assign) and norm(n.targets[0]) == 'pos' and 'min(' in norm(n.value)]
-        ok = any(c_.replace(' ', '').endswith('-2)') and 'len(' in c_ for c_ in clamp)
-        rep.add({'lineinfo': q, 'clamp': clamp, 'ok': ok})
-        if not ok:
-            rep.fail(q, 'clamp', f'lineinfo does not clamp the offset to len(cache) - 2 (found {clamp}): the sentinel entry (empty '
-                     f'line past the end) would be reported for the last position', fn.loc)
+    for row in edge_positions(a):
+        rep.add(row)
+        if not row['ok']:
+            rep.fail(row['fn'], f'edge:{row["text"]!r}:{row["offset"]}', f'{row["impl"]}.{row["query"]}({row["offset"]}) on the text {row["text"]!r} '
+                     f'{row["result"]}: a position at the end of the text (where "unexpected end of input" failures are reported) or in an '
+                     f'empty text must be answered, with a line start inside the text', a.p.func(row['fn']).loc)
     return rep
+
+
+def edge_positions(a):
+    """lineinfo / lineat-posline / poscol of the three implementations, interpreted at the offsets the exhaustive rule leaves
+    out: offset == len(text) for every text over {a, LF} up to length 2, and offset 0 of the empty text.  Required: no exception,
+    and lineinfo's start <= len(text)."""
+    import itertools
+    from collections import namedtuple
+
+    from ..minieval import Unsupported
+    from ..modelinterp import Hook, ModelInterp, Stub
+    PL = namedtuple('PosLine', 'startpos lineno length')
+    hooks = {'PosLine': Hook(PL), 'LineInfo': Hook(lambda **kw: kw)}
+    blc = a.p.func('tatsu.input.infos.PosLine.build_line_cache')
+    impls = [
+        ('tatsu.input.textlines.TextLinesCursor', 'lineat', lambda cache, idx, text: Stub('tatsu.input.textlines.TextLinesCursor', pos=0, _input=Stub(
+            'tatsu.input.textlines.TextLines', line_cache=cache, line_index=idx, textstr=text, len=len(text), source='src'))),
+        ('tatsu.input.buffer.BufferCursor', 'lineat', lambda cache, idx, text: Stub('tatsu.input.buffer.BufferCursor', pos=0, buffer=Stub(
+            'tatsu.input.buffer.Buffer', linecache=cache, lineindex=idx, text=text, source='src'), textstr=text)),
+        ('tatsu.input.buffer.Buffer', 'posline', lambda cache, idx, text: Stub('tatsu.input.buffer.Buffer', pos=0, linecache=cache, lineindex=idx,
+                                                                            text=text, source='src', len=len(text))),
+    ]
+    rows = []
+    for k in range(0, 3):
+        for tup in itertools.product('a\n', repeat=k):
+            text = ''.join(tup)
+            lines = text.splitlines(True)
+            try:
+                built = ModelInterp(a, dict(hooks)).call_fn(blc, [lines, len(text)])
+            except Unsupported as e:
+                raise AnalysisError(f'cannot interpret build_line_cache: {e}') from e
+            cache = built[0] if isinstance(built, tuple) else built
+            idx = [('src', i) for i in range(len(lines))]
+            for q, lineq, mk in impls:
+                for query in ('lineinfo', lineq, 'poscol'):
+                    cur = mk(cache, idx, text)
+                    it = ModelInterp(a, dict(hooks))
+                    try:
+                        r = it.apply(it.get_attr(cur, query), [len(text)], {})
+                        ok = True
+                        if query == 'lineinfo':
+                            ok = 0 <= r['start'] <= len(text) and r['col'] >= 0
+                        res = f'gives {r}'
+                    except Unsupported as e:
+                        raise AnalysisError(f'cannot interpret {q}.{query}: {e}') from e
+                    except Exception as e:  # noqa: BLE001 - an exception of the interpreted code (IndexError ...)
+                        ok, res = False, f'raises {type(e).__name__}: {e}'
+                    rows.append({'fn': f'{q}.{query}', 'impl': q.split('.')[-1], 'query': query, 'text': text, 'offset': len(text), 'result': res, 'ok': ok})
+    return rows
 
 
 def r3_line_index_exhaustive(a, tier):
